@@ -148,6 +148,29 @@ func init() {
 			return
 		}
 		pk := sk[32:]
+		// C08: the independent strict receiver written from the specs must parse and authenticate it
+		if c.A["spec"] == "1" {
+			md := 1
+			if mode == "det" {
+				md = 2
+			}
+			ro, re := refVerify(out, md, msg)
+			if re != nil {
+				fs = append(fs, Failure{Kind: "oracle", Key: "spec-nonconformant-signature-output", Desc: "the reference receiver rejects the library's output: " + re.Error()})
+			} else {
+				if !bytes.Equal(ro.plaintext, msg) && md == 1 || !bytes.Equal(ro.senderPk, pk) || ro.major != v.Major || ro.minor != v.Minor {
+					fs = append(fs, Failure{Kind: "oracle", Key: "spec-decoder-disagrees-signature", Desc: "the reference receiver recovers a different message/signer/version"})
+				}
+				if len(ro.sigNonce) != 32 {
+					fs = append(fs, Failure{Kind: "oracle", Key: "spec-sig-header-nonce-16-bytes", Desc: fmt.Sprintf("signature header nonce has %d bytes; saltpack_signing_v1.md and _v2.md specify 32 random bytes", len(ro.sigNonce))})
+				}
+				for _, cl := range ro.chunkLens {
+					if cl > 1<<20 {
+						fs = append(fs, Failure{Kind: "oracle", Key: "spec-chunk-too-large", Desc: "chunk larger than 1 MiB"})
+					}
+				}
+			}
+		}
 		ring := sigRing{known: [][]byte{pk}}
 		other := sigRing{known: [][]byte{bytes.Repeat([]byte{9}, 32)}}
 		if mode == "att" {
@@ -218,6 +241,14 @@ func init() {
 		if clean != (e == nil) || (e == nil && (!bytes.Equal(vm, o.released) || !bytes.Equal(k.ToKID(), o.pk))) || (e != nil && vm != nil) {
 			fs = append(fs, Failure{Kind: "oracle", Key: "verify-forms-disagree", Desc: fmt.Sprintf("stream: %.120s ; Verify: %d bytes, %v", got, len(vm), e)})
 		}
+		if w, ok := c.A["want"]; ok {
+			if o.hdrErr != nil || o.end != io.EOF || !bytes.Equal(o.released, unhx(w)) || hx(o.pk) != c.A["want_pk"] {
+				fs = append(fs, Failure{Kind: "oracle", Key: "verify-rejects-spec-message", Desc: fmt.Sprintf("a message produced by the reference signer (%s) was not accepted as expected: %.200s", c.A["knobs"], got)})
+			}
+		}
+		if rk, ok := c.A["must_reject"]; ok && o.hdrErr == nil && (len(o.released) > 0 || o.end == io.EOF) {
+			fs = append(fs, Failure{Kind: "oracle", Key: rk, Desc: fmt.Sprintf("%s: accepted: %.160s", c.A["why"], got)})
+		}
 		// ground truth: what this key really signed (attached mode)
 		if t, ok := c.A["truth"]; ok && o.hdrErr == nil {
 			truth := unblist(t)
@@ -253,6 +284,14 @@ func init() {
 		}
 		if strings.Contains(got, "PANIC") {
 			fs = append(fs, Failure{Kind: "oracle", Key: "verify-detached-panic", Desc: got[:min(300, len(got))]})
+		}
+		if rk, ok := c.A["must_reject"]; ok && e == nil {
+			fs = append(fs, Failure{Kind: "oracle", Key: rk, Desc: fmt.Sprintf("%s: accepted", c.A["why"])})
+		}
+		if w, ok := c.A["want_pk"]; ok {
+			if e != nil || hx(k.ToKID()) != w {
+				fs = append(fs, Failure{Kind: "oracle", Key: "verify-detached-rejects-spec-message", Desc: fmt.Sprintf("a detached signature produced by the reference signer (%s) was not accepted: %.200s", c.A["knobs"], got)})
+			}
 		}
 		if t, ok := c.A["truth"]; ok && e == nil {
 			// truth: the (message, signature-file header) pairs really signed in detached mode
